@@ -85,6 +85,14 @@ func c14Body(r *Run) {
 		return
 	}
 	d := &middleware.Deduplicator{Repository: repo, Timeout: time.Second}
+	// a fifth of the runs: no Repository is given (the default one remembers for a minute) and the same Deduplicator is
+	// installed in two places (as a router does with a router-level middleware): it is still ONE deduplication domain
+	defaultRepo := t.Chance(1, 5)
+	if defaultRepo {
+		d.Repository = nil
+		window = time.Minute
+		r.Probe("default-repository-two-wraps")
+	}
 	switch hasher {
 	case 0:
 		d.KeyFactory = middleware.NewMessageHasherAdler32(64)
@@ -135,9 +143,23 @@ func c14Body(r *Run) {
 			return
 		}
 	}
+	handler2, decorated2 := handler, decorated
+	if defaultRepo {
+		handler2 = d.Middleware(func(m *message.Message) ([]*message.Message, error) {
+			handled[m] = true
+			return []*message.Message{message.NewMessage(m.UUID+">o", nil)}, nil
+		})
+		if useDecorator {
+			if decorated2, err = d.PublisherDecorator()(inner); err != nil {
+				r.HarnessErr = err.Error()
+				return
+			}
+		}
+	}
 	type job struct {
 		g, wave, keyIdx, variant int
 		cancelledCtx             bool
+		wrap                     int // which of the two places the Deduplicator is installed in
 	}
 	var present func(j job)
 	present = func(j job) {
@@ -156,7 +178,11 @@ func c14Body(r *Run) {
 		ev++
 		p.invEv, p.inv = ev, r.Sim.Now()
 		if useDecorator {
-			p.err = decorated.Publish("topic", m)
+			pub := decorated
+			if j.wrap == 1 {
+				pub = decorated2
+			}
+			p.err = pub.Publish("topic", m)
 			for _, c := range inner.Calls {
 				for _, x := range c.Msgs {
 					if x == m {
@@ -167,7 +193,11 @@ func c14Body(r *Run) {
 			p.acked = rawClosed(m.Acked())
 		} else {
 			var outs []*message.Message
-			outs, p.err = handler(m)
+			hf := handler
+			if j.wrap == 1 {
+				hf = handler2
+			}
+			outs, p.err = hf(m)
 			p.outs = len(outs)
 			p.accepted = handled[m]
 		}
@@ -185,7 +215,7 @@ func c14Body(r *Run) {
 	plan := make([][]job, waves)
 	for w := 0; w < waves; w++ {
 		for g := 0; g < nG; g++ {
-			plan[w] = append(plan[w], job{g: g, wave: w, keyIdx: t.Int(nKeys), variant: t.Int(3), cancelledCtx: t.Chance(1, 6)})
+			plan[w] = append(plan[w], job{g: g, wave: w, keyIdx: t.Int(nKeys), variant: t.Int(3), cancelledCtx: t.Chance(1, 6), wrap: t.Int(2)})
 		}
 	}
 	stallFree := r.Params["stalled"] == 0
